@@ -4,6 +4,7 @@ import Srctools.Proofs.C14Iso
 import Srctools.Gen.Dmx
 import Srctools.Model.C14Kv2
 import Srctools.Proofs.C14Kv2Main
+import Srctools.Proofs.C14Kv2Order
 import Srctools.Props.C02
 /-!
 # C14 — DMX export/parse preserves the element graph (binary and KeyValues2), KV1 bridge
@@ -285,6 +286,33 @@ theorem C14_kv2_flat (E : Tok.Tables) (T : Tables) (hE : Tok.escOK E = true) (hL
   rw [Kv2.order_flat] at h2
   exact ⟨ns, h1, h2⟩
 
+/-- **Nested layout: the use-count pass, derived.** In a canonically numbered graph (`bfsOrdered`:
+every element but the first is referenced from a smaller index — what the export traversal produces,
+see `C14_iso_bfsOrdered`) an element that is not the root and is referenced exactly once is written
+inline at that single use, every other element at the top level, and *every element is written
+exactly once*: the emission order is a permutation of the element indices, and the nesting never
+exhausts the fuel.  Nothing is assumed about the emission itself. -/
+theorem C14_kv2_order_perm (T : Tables) (fold : Str → Str) (g : Kv2.TGraph)
+    (hwf : Kv2.graphWf T fold g false = true) (hb : Kv2.bfsOrdered g = true) :
+    Kv2.nestAllOK g false = true ∧ (Kv2.order g false).Perm (List.range g.elems.length) :=
+  ⟨Kv2.nestAllOK_of_bfs T fold g hwf hb, Kv2.order_perm T fold g hwf hb⟩
+
+/-- **KeyValues2 round trip, nested layout, from the graph structure alone**: `graphWf ∧ uuidsOK`
+and the canonical numbering suffice; the relation of `C14_kv2` is then a bijection between nodes
+and elements (a graph isomorphism). -/
+theorem C14_kv2_nested (E : Tok.Tables) (T : Tables) (hE : Tok.escOK E = true) (hL : Kv2.lexOK E = true)
+    (hN : Kv2.namesOK T = true) (hP : Kv2.plainOK E T = true) (cfold : Char → List Char)
+    (hf : ∀ c ∈ Kv2.nameChars T, cfold c = [c]) (g : Kv2.TGraph) (cull : Bool) (hne : g.elems ≠ [])
+    (hwf : Kv2.graphWf T (fun s => s.flatMap cfold) g false = true) (hu : Kv2.uuidsOK g = true)
+    (hb : Kv2.bfsOrdered g = true) :
+    ∃ ns, Kv2.parse E T cfold (Kv2.emit E T false cull g) = .ok ns ∧
+      List.Forall₂ (Kv2.NodeRel g false cull (Kv2.ValRel (Kv2.order g false))) (Kv2.order g false) ns ∧
+      (Kv2.order g false).head? = some 0 ∧
+      (Kv2.order g false).Perm (List.range g.elems.length) := by
+  obtain ⟨hnest, hperm⟩ := C14_kv2_order_perm T _ g hwf hb
+  obtain ⟨ns, h1, h2, h3⟩ := C14_kv2 E T hE hL hN hP cfold hf g false cull hne hwf hu hnest
+  exact ⟨ns, h1, h2, h3, hperm⟩
+
 /-- … at the tables of the current source, for any case folding that is the identity on the
 characters of the type names (`str.casefold` on lower-case ASCII letters, digits and `_`). -/
 theorem C14_kv2_current (cfold : Char → List Char)
@@ -406,6 +434,7 @@ example : Kv2.graphWf Gen.Dmx.tables (fun s => s) C14_kv2Sample false = true := 
 example : Kv2.uuidsOK C14_kv2Sample = true := by decide +kernel
 example : Kv2.nestAllOK C14_kv2Sample false = true := by decide +kernel
 example : Kv2.orderOK C14_kv2Sample false = true := by decide +kernel
+example : Kv2.bfsOrdered C14_kv2Sample = true := by decide +kernel
 example : Kv2.order C14_kv2Sample false = [0, 1] := by decide +kernel
 example : C14_kv2Check false false = true := by decide +kernel
 example : C14_kv2Check false true = true := by decide +kernel
